@@ -15,6 +15,9 @@ import (
 // contracts per expiry height, block-time steps that cross the limit window,
 // parameter changes between blocks.  Events are generated from the last
 // observed state so that most are enabled and some deliberately are not.
+// Two blocks in five also carry 1-3 negative probes (probe): every message
+// type on contracts in every life-cycle state, by every role, with identifiers
+// and coins of the wrong kind (cfg noprobe=1 switches them off).
 type rgen struct {
 	e       *htlcEnv
 	rng     *rand.Rand
@@ -208,6 +211,246 @@ func (g *rgen) anyClaim() chain.M {
 	return g.claim(id, kind)
 }
 
+// ---------------------------------------------------------------------------
+// negative probing: every message type on contracts in every life-cycle
+// state, by every role, with identifiers and coins of the wrong kind.
+
+// byState lists the contract names per state of the last observed state.
+func (g *rgen) byState() map[string][]string {
+	out := map[string][]string{}
+	hs, ids := g.htlcs()
+	for _, i := range ids {
+		if c, ok := hs[i].(chain.M); ok {
+			st, _ := c["state"].(string)
+			out[st] = append(out[st], i)
+		}
+	}
+	return out
+}
+
+// target picks a contract, first choosing uniformly among the life-cycle
+// states present (so closed contracts are hit as often as open ones).
+func (g *rgen) target() (string, chain.M) {
+	bs := g.byState()
+	var states []string
+	for _, st := range []string{"open", "completed", "refunded"} {
+		if len(bs[st]) > 0 {
+			states = append(states, st)
+		}
+	}
+	if len(states) == 0 {
+		return "", nil
+	}
+	id := g.pick(bs[g.pick(states)])
+	c, _ := g.e.last["htlc"].(chain.M)[id].(chain.M)
+	return id, c
+}
+
+// role picks the signer of a probe by its relation to contract c: the
+// recipient, the sender, the deputy in force, a stranger; accounts that cannot
+// sign (module accounts) fall back to any signer.
+func (g *rgen) role(c chain.M) string {
+	e := g.e
+	cand := ""
+	switch g.rng.Intn(4) {
+	case 0:
+		cand, _ = c["to"].(string)
+	case 1:
+		cand, _ = c["sender"].(string)
+	case 2:
+		cand = g.deputyOf(g.pick(e.assets))
+	default:
+		var strangers []string
+		for _, a := range e.signers() {
+			if a != c["to"] && a != c["sender"] {
+				strangers = append(strangers, a)
+			}
+		}
+		if len(strangers) > 0 {
+			cand = g.pick(strangers)
+		}
+	}
+	if _, ok := e.c.Accts[cand]; !ok || cand == "" {
+		cand = g.pick(e.signers())
+	}
+	return cand
+}
+
+func copyAmt(v any) chain.M {
+	out := chain.M{}
+	if m, ok := v.(chain.M); ok {
+		for k, x := range m {
+			out[k] = x
+		}
+	}
+	return out
+}
+
+// probe returns one negative / unusual-input event built from the last
+// observed state (nil when there is nothing to aim at).
+func (g *rgen) probe(nowTs int64) chain.M {
+	e := g.e
+	id, c := g.target()
+	x := g.rng.Intn(20)
+	if c == nil && x < 11 {
+		x = 11 + g.rng.Intn(9)
+	}
+	sec, _ := c["sec"].(string)
+	claim := func(idName, secName, form string) chain.M {
+		ev := htlcEvent("Claim")
+		ev["who"], ev["id"], ev["sec"], ev["form"] = g.role(c), idName, secName, form
+		return ev
+	}
+	create := func() chain.M {
+		ev := htlcEvent("Create")
+		g.seq++
+		ev["id"] = fmt.Sprintf("r%d", g.seq)
+		ev["lock"] = []int64{50, 51, 52}[g.rng.Intn(3)]
+		return ev
+	}
+	switch x {
+	case 0: // the right secret on a contract in whatever state, by a chosen role
+		return claim(id, sec, "")
+	case 1:
+		return claim(id, sec, "idupper")
+	case 2:
+		return claim(id, sec, "secupper")
+	case 3:
+		return claim("hl:"+id, sec, "idhl")
+	case 4:
+		return claim("pre:"+id, sec, "idpre")
+	case 5:
+		return claim("rev:"+id, sec, "idrev")
+	case 6:
+		return claim(id, "hl:"+id, "sechl")
+	case 7:
+		return claim(id, "id:"+id, "secid")
+	case 8, 9: // re-creation of an existing contract (any state); the id depends neither on the
+		// transfer flag nor on the time lock, so flipping them still names the same contract
+		ev := create()
+		ev["id"], ev["form"] = id, "recreate"
+		ev["who"], ev["to"], ev["amt"] = c["sender"], c["to"], copyAmt(c["amt"])
+		ev["sec"], ev["lts"], ev["ts"] = sec, c["lts"], c["ts"]
+		tr, _ := c["transfer"].(bool)
+		if x == 9 && len(copyAmt(c["amt"])) == 1 {
+			tr = !tr
+		}
+		ev["transfer"] = tr
+		if _, ok := e.c.Accts[chain.Str(ev, "who")]; !ok {
+			return nil
+		}
+		return ev
+	case 10: // the same hash lock, sender and recipient with another amount: a different contract
+		ev := create()
+		ev["who"], ev["to"] = c["sender"], c["to"]
+		amt := copyAmt(c["amt"])
+		for d, v := range amt {
+			if n, ok := v.(int64); ok {
+				amt[d] = n + 1
+				break
+			}
+		}
+		ev["amt"], ev["sec"], ev["lts"], ev["ts"], ev["transfer"] = amt, sec, c["lts"], c["ts"], c["transfer"]
+		if _, ok := e.c.Accts[chain.Str(ev, "who")]; !ok {
+			return nil
+		}
+		if v, ok := ev["lts"].(int64); !ok || v < 0 {
+			return nil
+		}
+		return ev
+	case 11, 12, 13: // a transfer in a coin that is no asset: ordinary, or shaped like an asset denom
+		ev := create()
+		d := g.pick(append(append([]string{}, oddDenoms...), g.pick(e.plain)))
+		if g.rng.Intn(2) == 0 { // outgoing-shaped: a holder -> the deputy
+			ev["who"], ev["to"] = g.pick(e.users), g.deputyOf(g.pick(e.assets))
+		} else { // incoming-shaped: the deputy -> a user
+			ev["who"], ev["to"] = g.deputyOf(g.pick(e.assets)), g.pick(e.users)
+		}
+		ev["amt"] = chain.M{d: int64(1 + g.rng.Intn(2))}
+		ev["sec"], ev["lts"], ev["ts"], ev["transfer"] = g.pick([]string{"o1", "o2", "t1"}), nowTs, nowTs, true
+		return ev
+	case 14: // an ordinary contract in shaped coins (accepted: they are plain coins)
+		ev := create()
+		ev["who"] = g.pick(e.users)
+		ev["to"] = g.pick(append(append([]string{}, e.users...), depName, poolName))
+		amt := chain.M{g.pick(oddDenoms): int64(1)}
+		if g.rng.Intn(2) == 0 {
+			amt[g.pick(append(append([]string{}, oddDenoms...), e.plain...))] = int64(1 + g.rng.Intn(2))
+		}
+		ev["amt"], ev["sec"] = amt, g.pick([]string{"s1", "s2", "s3", "s4"})
+		if g.rng.Intn(2) == 0 {
+			ev["lts"], ev["ts"] = nowTs, nowTs
+		}
+		return ev
+	case 15: // a transfer with two coins / a zero coin
+		ev := create()
+		ev["who"], ev["to"] = g.pick(e.users), g.deputyOf("htltone")
+		ev["sec"], ev["lts"], ev["ts"], ev["transfer"] = "o3", nowTs, nowTs, true
+		if g.rng.Intn(2) == 0 {
+			ev["amt"] = chain.M{g.pick(e.assets): int64(1), g.pick(e.plain): int64(1)}
+		} else {
+			ev["amt"] = chain.M{g.pick(e.assets): int64(0)}
+			if g.rng.Intn(2) == 0 {
+				ev["amt"], ev["transfer"] = chain.M{"aaa": int64(0), "bbb": int64(1)}, false
+			}
+		}
+		return ev
+	case 16: // recipients in unusual roles: keyless accounts (module accounts, blocked; another module's
+		// pool escrow, not blocked), the sender itself
+		ev := create()
+		ev["who"] = g.pick(e.users)
+		ev["to"] = g.pick([]string{poolName, poolName, blkName, modName, chain.Str(ev, "who")})
+		ev["amt"] = chain.M{g.pick(e.plain): int64(1)}
+		ev["sec"] = g.pick([]string{"s1", "s2", "s3", "s4"})
+		return ev
+	case 17: // a transfer of a real asset between two parties neither / both of which is the deputy,
+		// or sent by the deputy of the OTHER asset
+		ev := create()
+		d := g.pick(e.assets)
+		other := e.assets[0]
+		if d == other {
+			other = e.assets[1]
+		}
+		switch g.rng.Intn(3) {
+		case 0:
+			ev["who"], ev["to"] = g.pick(e.users), g.pick(e.users)
+		case 1:
+			ev["who"], ev["to"] = g.deputyOf(d), g.deputyOf(d)
+		default:
+			ev["who"], ev["to"] = g.deputyOf(other), g.pick(e.users)
+		}
+		ev["amt"] = chain.M{d: int64(1 + g.rng.Intn(2))}
+		ev["sec"], ev["lts"], ev["ts"], ev["transfer"] = g.pick([]string{"t4", "t5"}), nowTs, nowTs, true
+		if _, ok := e.c.Accts[chain.Str(ev, "who")]; !ok {
+			return nil
+		}
+		return ev
+	case 18: // an outgoing transfer of more than the asset's unlocked current supply / than the sender holds
+		ev := create()
+		d := g.pick(e.assets)
+		ev["who"], ev["to"] = g.pick(e.users), g.deputyOf(d)
+		a := int64(1)
+		if su, ok := e.last["sup"].(chain.M)[d].(chain.M); ok {
+			cur, _ := su["cur"].(int64)
+			out, _ := su["out"].(int64)
+			a = cur - out + int64(g.rng.Intn(2))
+		}
+		if a < 1 {
+			a = 1
+		}
+		ev["amt"] = chain.M{d: a}
+		ev["sec"], ev["lts"], ev["ts"], ev["transfer"] = "o4", nowTs, nowTs, true
+		return ev
+	default: // the id of one contract with the secret of another (both of the chain)
+		_, c2 := g.target()
+		if c == nil || c2 == nil {
+			return nil
+		}
+		s2, _ := c2["sec"].(string)
+		return claim(id, s2, "")
+	}
+}
+
 func (g *rgen) dueAt(h int64) []string {
 	var out []string
 	for _, x := range g.e.last["q"].([]any) {
@@ -230,7 +473,48 @@ func (g *rgen) paramsEvent() chain.M {
 		return chain.M{"limit": limit, "timeLimited": tl, "period": period, "tbl": tbl, "active": true,
 			"deputy": depName, "fee": fee, "minAmt": int64(1), "maxAmt": int64(3), "minLock": int64(50), "maxLock": int64(100)}
 	}
-	switch g.rng.Intn(14) {
+	x := g.rng.Intn(18)
+	if len(cur) < len(g.e.assets) && g.rng.Intn(2) == 0 {
+		x = 15 // some asset is delisted: list it again, with other limits
+	}
+	switch x {
+	case 14: // a module account (which can never sign) becomes the deputy of an asset
+		if p, ok := ps[g.pick(g.e.assets)].(chain.M); ok {
+			p["deputy"] = g.pick([]string{modName, blkName, poolName})
+		}
+	case 15: // a delisted asset is listed again with other limits; a listed one changes kind
+		for _, d := range g.e.assets {
+			if _, ok := ps[d]; !ok {
+				ps[d] = base(d, int64(2+g.rng.Intn(6)), g.rng.Intn(2) == 0, int64(20+g.rng.Intn(60)), int64(1+g.rng.Intn(2)), int64(g.rng.Intn(2)))
+			} else if p, ok := ps[d].(chain.M); ok && g.rng.Intn(2) == 0 {
+				tl, _ := p["timeLimited"].(bool)
+				p["timeLimited"] = !tl
+				if !tl {
+					p["period"], p["tbl"] = int64(20+g.rng.Intn(60)), int64(1+g.rng.Intn(2))
+					if lim, ok := p["limit"].(int64); ok && lim < p["tbl"].(int64) {
+						p["tbl"] = lim
+					}
+				}
+			}
+		}
+	case 16: // the limit set to exactly the recorded current supply / one below it
+		for _, d := range g.e.assets {
+			p, ok1 := ps[d].(chain.M)
+			su, ok2 := g.e.last["sup"].(chain.M)[d].(chain.M)
+			if ok1 && ok2 {
+				cur, _ := su["cur"].(int64)
+				lim := cur - int64(g.rng.Intn(2))
+				if lim < 0 {
+					lim = 0
+				}
+				p["limit"] = lim
+				if tbl, ok := p["tbl"].(int64); ok && tbl > lim {
+					p["tbl"] = lim
+				}
+			}
+		}
+	case 17: // every asset delisted (the begin blocker then stops its window bookkeeping)
+		ps = chain.M{}
 	case 9: // swap range tightened to exactly 2 (transfers of 1 and 3 may be in flight)
 		for _, d := range g.e.assets {
 			if p, ok := ps[d].(chain.M); ok && g.rng.Intn(2) == 0 {
@@ -289,10 +573,14 @@ func htlcRandom(fl *drv.Flags, rng *rand.Rand, w *chain.TraceWriter) {
 	g := &rgen{e: e, rng: rng}
 	noParams := fl.CfgInt("noparams", 0) == 1
 	flood := fl.CfgInt("flood", 0)
+	noProbe := fl.CfgInt("noprobe", 0) == 1
 	for r := 0; r < fl.Len && !e.dead; r++ {
 		h := e.c.Height
 		dts := []int64{1, 1, 2, 5, 10, 30, 60, 0, 0, 500, 5000}
 		dt := dts[rng.Intn(len(dts))]
+		if rng.Intn(6) == 0 {
+			dt = g.boundaryDt(dt)
+		}
 		nowTs := e.c.Time.Unix() + dt - e.t0.Unix() + tsOff
 		var pending []chain.M
 		dueNext := g.dueAt(h + 1)  // refunded by the coming BeginBlock
@@ -373,6 +661,17 @@ func htlcRandom(fl *drv.Flags, rng *rand.Rand, w *chain.TraceWriter) {
 				pending = append(pending, g.anyClaim())
 			}
 		}
+		if !noProbe && rng.Intn(5) < 2 { // negative probes, anywhere in the block
+			for k := 1 + rng.Intn(3); k > 0; k-- {
+				if p := g.probe(nowTs); p != nil {
+					at := rng.Intn(len(pending) + 1)
+					pending = append(pending[:at], append([]chain.M{p}, pending[at:]...)...)
+					if p["name"] == "Create" {
+						g.created = append(g.created, p)
+					}
+				}
+			}
+		}
 		if rng.Intn(8) == 0 && len(pending) > 1 { // the same claim twice in one block
 			for _, p := range pending {
 				if p["name"] == "Claim" {
@@ -386,4 +685,27 @@ func htlcRandom(fl *drv.Flags, rng *rand.Rand, w *chain.TraceWriter) {
 	if !e.dead {
 		e.epilogue(w)
 	}
+}
+
+// boundaryDt returns a block-time step that lands exactly on (or one second
+// before / after) the end of the running limit period of a time-limited asset.
+func (g *rgen) boundaryDt(dflt int64) int64 {
+	ps, _ := g.e.last["params"].(chain.M)
+	sups, _ := g.e.last["sup"].(chain.M)
+	for _, d := range g.e.assets {
+		p, ok1 := ps[d].(chain.M)
+		su, ok2 := sups[d].(chain.M)
+		if !ok1 || !ok2 {
+			continue
+		}
+		if tl, _ := p["timeLimited"].(bool); !tl {
+			continue
+		}
+		per, _ := p["period"].(int64)
+		el, _ := su["elapsed"].(int64)
+		if dt := per - el + int64(g.rng.Intn(3)) - 1; dt >= 0 {
+			return dt
+		}
+	}
+	return dflt
 }
